@@ -97,9 +97,24 @@ def sync_coq(dst):
     os.makedirs(dst, exist_ok=True)
     rc, out, err, dt = sh(['rsync', '-a', '--delete', '--exclude', 'Tables.v', '--exclude', '*.vo', '--exclude', '*.vos', '--exclude', '*.vok',
                            '--exclude', '*.glob', '--exclude', '*.aux', '--exclude', '.*.aux', '--exclude', 'Makefile.coq*', '--exclude', '.Makefile.coq.d',
-                           '--exclude', '.lia.cache', '--exclude', 'cases*.v', COQ_SRC + '/', dst + '/'])
+                           '--exclude', '.lia.cache', '--exclude', 'cases*.v', '--exclude', '_CoqProject', COQ_SRC + '/', dst + '/'])
     if rc != 0:
         raise RuntimeError('rsync failed: ' + err)
+    if not os.path.exists(os.path.join(dst, 'Tables.v')):
+        shutil.copy(os.path.join(COQ_SRC, 'Tables.v'), os.path.join(dst, 'Tables.v'))
+    write_coqproject(dst)
+
+
+def write_coqproject(dirp):
+    """_CoqProject lists every .v file of the development (coqdep orders them); Extract.v and the replay
+    files cases*.v are compiled separately"""
+    files = []
+    for root, _, fs in os.walk(dirp):
+        for f in sorted(fs):
+            if f.endswith('.v') and f != 'Extract.v' and not f.startswith('cases'):
+                files.append(os.path.relpath(os.path.join(root, f), dirp))
+    txt = '-Q . Pakhi\n' + '\n'.join(sorted(files)) + '\n'
+    write_if_changed(os.path.join(dirp, '_CoqProject'), txt)
 
 
 def write_if_changed(path, txt):
